@@ -38,6 +38,9 @@ pub struct CCfg {
     /// sample is_end_stream()/size_hint() before every poll (two more lock acquisitions)
     pub sample: bool,
     pub extra_polls: u8,
+    /// the consumer drops the body (client gone) after this many polls instead of going on
+    #[serde(default)]
+    pub drop_after_polls: Option<u8>,
 }
 
 #[derive(Clone, Debug, Serialize, Deserialize)]
@@ -94,6 +97,7 @@ struct St {
     producer_after_park: bool,
     steps: usize,
     bail: bool,
+    body_dropped: bool,
     violation: Option<Fail>,
     events: Vec<String>,
 }
@@ -106,7 +110,7 @@ impl St {
     }
     fn enabled(&self, a: Actor) -> bool {
         match a {
-            Actor::P => !self.p_finished && (!self.p_waiting || self.received.len() >= self.flushed || self.c_terminal),
+            Actor::P => !self.p_finished && (!self.p_waiting || self.received.len() >= self.flushed || self.c_terminal || self.body_dropped),
             Actor::C => !self.c_finished && (!self.c_parked || self.woken),
         }
     }
@@ -336,6 +340,10 @@ fn producer(sched: Arc<Sched>, mut w: crate::props::stream::SWriter, case: Sched
         if sched.bailed() {
             break;
         }
+        let (dropped_before, buf_before) = {
+            let st = sched.m.lock().unwrap();
+            (st.body_dropped, st.model_buf)
+        };
         match *op {
             POp::WriteAll(n) => {
                 let buf: Vec<u8> = (0..n as u64).map(|k| payload_byte(Payload::Hash, pos + k)).collect();
@@ -356,7 +364,7 @@ fn producer(sched: Arc<Sched>, mut w: crate::props::stream::SWriter, case: Sched
                         st.ev(format!("P write_all({n})->Ok"));
                     }
                     Ok(Err(_)) => {
-                        if st.aborted.is_none() {
+                        if st.aborted.is_none() && !st.body_dropped && case.cfg.drop_after_polls.is_none() {
                             st.violate("w:write-failed-live", format!("op {i} write_all failed on a live body"));
                         }
                         st.ev(format!("P write_all({n})->Err"));
@@ -381,6 +389,9 @@ fn producer(sched: Arc<Sched>, mut w: crate::props::stream::SWriter, case: Sched
                         } else {
                             st.model_buf += k;
                         }
+                        if dropped_before && case.gzip.is_none() && buf_before + k >= case.chunk {
+                            st.violate("drop:chunk-completing-write-ok", format!("op {i}: a write that completes a chunk returned Ok although the body had been dropped before the call started"));
+                        }
                         if st.aborted.is_some() {
                             st.violate("abort:write-ok-after-abort", format!("op {i} write succeeded after abort"));
                         } else if n > 0 && k == 0 {
@@ -389,7 +400,7 @@ fn producer(sched: Arc<Sched>, mut w: crate::props::stream::SWriter, case: Sched
                         st.ev(format!("P write({n})->{k}"));
                     }
                     Ok(Err(_)) => {
-                        if st.aborted.is_none() {
+                        if st.aborted.is_none() && !st.body_dropped && case.cfg.drop_after_polls.is_none() {
                             st.violate("w:write-failed-live", format!("op {i} write failed on a live body"));
                         }
                         st.ev(format!("P write({n})->Err"));
@@ -402,6 +413,9 @@ fn producer(sched: Arc<Sched>, mut w: crate::props::stream::SWriter, case: Sched
                 let mut st = sched.m.lock().unwrap();
                 match r {
                     Ok(Ok(())) => {
+                        if dropped_before && case.gzip.is_none() && buf_before > 0 {
+                            st.violate("drop:flush-ok-with-unflushed-bytes", format!("op {i}: flush returned Ok with {buf_before} unflushed bytes although the body had been dropped before the call started"));
+                        }
                         if case.gzip.is_none() {
                             st.flushed = st.accepted.len();
                         }
@@ -412,7 +426,7 @@ fn producer(sched: Arc<Sched>, mut w: crate::props::stream::SWriter, case: Sched
                         st.ev("P flush->Ok".into());
                     }
                     Ok(Err(_)) => {
-                        if st.aborted.is_none() {
+                        if st.aborted.is_none() && !st.body_dropped && case.cfg.drop_after_polls.is_none() {
                             st.violate("w:flush-failed-live", format!("op {i} flush failed on a live body"));
                         }
                         st.ev("P flush->Err".into());
@@ -440,7 +454,7 @@ fn producer(sched: Arc<Sched>, mut w: crate::props::stream::SWriter, case: Sched
                         st.aborted = Some(id);
                         // From now on the consumer may see the error at any time.
                         st.writer_gone = true;
-                        st.queued_at_gone = st.flushed.saturating_sub(st.received.len());
+                        st.queued_at_gone = if case.gzip.is_some() { st.accepted.len() + 64 } else { st.flushed.saturating_sub(st.received.len()) };
                     }
                     st.ev("P abort".into());
                 }
@@ -492,6 +506,7 @@ fn consumer(sched: Arc<Sched>, body: SBody, case: SchedCase, out: Arc<Mutex<Trac
         stalled: false,
     };
     let mut terminal = false;
+    let mut dropped_early = false;
     let mut extra_left = case.cfg.extra_polls;
     // Wait for the first turn.
     {
@@ -510,6 +525,22 @@ fn consumer(sched: Arc<Sched>, body: SBody, case: SchedCase, out: Arc<Mutex<Trac
                 break;
             }
             extra_left -= 1;
+        }
+        if let Some(k) = case.cfg.drop_after_polls {
+            if !terminal && t.steps.len() >= k as usize {
+                // The client goes away: drop the body here, under the scheduler.
+                sched.m.lock().unwrap().ev("C drops the body".into());
+                let b = std::mem::replace(&mut body, Box::pin(build(None, 1).1));
+                let _ = crate::panics::guard(move || drop(b));
+                {
+                    let mut st = sched.m.lock().unwrap();
+                    st.body_dropped = true;
+                    st.c_terminal = true;
+                    st.ev("C body dropped".into());
+                }
+                dropped_early = true;
+                break;
+            }
         }
         if case.cfg.fresh_waker {
             gen += 1;
@@ -613,6 +644,7 @@ fn consumer(sched: Arc<Sched>, body: SBody, case: SchedCase, out: Arc<Mutex<Trac
             }
         }
     }
+    t.capped = dropped_early; // no terminal event will be seen
     *out.lock().unwrap() = t;
     // The body is dropped on this thread, still under the scheduler.
     let _ = crate::panics::guard(move || drop(body));
@@ -703,7 +735,7 @@ pub fn execute(case: &SchedCase) -> Outcome {
     let mut st = sched.m.lock().unwrap();
     let t = trace.lock().unwrap().clone();
     // End-of-run invariants.
-    if st.violation.is_none() {
+    if st.violation.is_none() && !st.body_dropped {
         let ev = st.events.join(" | ");
         match (st.aborted, t.terminal()) {
             (None, Some(Ev::End)) if case.gzip.is_some() => {
@@ -760,9 +792,12 @@ pub fn check(case: &SchedCase, acc: &mut Acc, c11: bool) -> (Check, Vec<ChoicePo
                 acc.internal_errors.push(format!("{}: {}; case {}", v.sig, v.msg, serde_json::to_string(case).unwrap_or_default()));
                 return Ok(());
             }
-            let is_abort = v.sig.starts_with("abort:") || v.sig == "lost-wakeup:abort";
+            let is_abort = v.sig.starts_with("abort:") || v.sig.starts_with("drop:") || v.sig == "lost-wakeup:abort";
             if c11 && !is_abort && !v.sig.starts_with("panic:") {
-                acc.count("progress-violation-seen(see C10)");
+                acc.count(&format!("progress-violation-seen(see C10):{}", v.sig));
+                if std::env::var_os("VP_DEBUG").is_some() {
+                    eprintln!("DEBUG {} :: {} :: {}", v.sig, v.msg, serde_json::to_string(case).unwrap_or_default());
+                }
                 return Ok(());
             }
             return fail(v.sig.clone(), format!("{}; case {}", v.msg, serde_json::to_string(case).unwrap_or_default()));
@@ -783,7 +818,7 @@ pub fn check(case: &SchedCase, acc: &mut Acc, c11: bool) -> (Check, Vec<ChoicePo
         let has_abort = case.program.iter().any(|o| matches!(o, POp::Abort));
         let label = format!(
             "{}{}{}{}",
-            if has_abort { "abort" } else { "clean" },
+            if case.cfg.drop_after_polls.is_some() { "body-dropped" } else if has_abort { "abort" } else { "clean" },
             if case.gzip.is_some() { ":gzip" } else { "" },
             if case.cfg.fresh_waker { ":fresh-waker" } else { ":same-waker" },
             if out.parks > 0 { ":parked" } else { "" }
@@ -890,6 +925,7 @@ pub fn configs() -> Vec<CCfg> {
                     spurious,
                     sample,
                     extra_polls: 1,
+                    drop_after_polls: None,
                 });
             }
         }
@@ -912,9 +948,15 @@ fn random_strategy(with_abort: bool) -> BoxedStrategy<SchedCase> {
         1u8..=3,
         vec(0u8..2, 0..60),
         prop_oneof![4 => Just(None), 1 => (1u32..=9).prop_map(Some)],
+        0u8..12,
     )
-        .prop_map(move |(mut program, chunk, fresh_waker, spurious, sample, extra_polls, choices, gzip)| {
-            if with_abort && !program.iter().any(|o| matches!(o, POp::Abort)) {
+        .prop_map(move |(mut program, chunk, fresh_waker, spurious, sample, extra_polls, choices, gzip, dropsel)| {
+            // C11 mode: either an abort somewhere in the program, or a consumer that drops the body
+            let drop_after_polls = if with_abort && dropsel < 5 { Some(dropsel) } else { None };
+            if drop_after_polls.is_some() {
+                program.retain(|o| !matches!(o, POp::Abort));
+            }
+            if with_abort && drop_after_polls.is_none() && !program.iter().any(|o| matches!(o, POp::Abort)) {
                 let at = choices.len() % (program.len() + 1);
                 program.insert(at, POp::Abort);
             }
@@ -927,6 +969,7 @@ fn random_strategy(with_abort: bool) -> BoxedStrategy<SchedCase> {
                     spurious,
                     sample,
                     extra_polls,
+                    drop_after_polls,
                 },
                 choices,
             }
@@ -964,6 +1007,20 @@ fn run_common(cx: &Cx, c11: bool) -> Acc {
             });
         }
     }
+    // C11: the consumer drops the body after k polls while the producer program runs.
+    if c11 {
+        for program in programs(3, false) {
+            for k in [0u8, 1, 2] {
+                units.push(SchedCase {
+                    gzip: None,
+                    chunk: 2,
+                    program: program.clone(),
+                    cfg: CCfg { fresh_waker: false, spurious: 0, sample: false, extra_polls: 0, drop_after_polls: Some(k) },
+                    choices: vec![],
+                });
+            }
+        }
+    }
     // gzip writer: short programs (each operation is several chunker writes), chunk size 6.
     for program in programs(3, c11) {
         if c11 && !program.iter().any(|o| matches!(o, POp::Abort)) {
@@ -977,7 +1034,7 @@ fn run_common(cx: &Cx, c11: bool) -> Acc {
                 gzip: Some(1),
                 chunk: 6,
                 program: program.clone(),
-                cfg: CCfg { fresh_waker, spurious: if fresh_waker { 2 } else { 0 }, sample: false, extra_polls: 1 },
+                cfg: CCfg { fresh_waker, spurious: if fresh_waker { 2 } else { 0 }, sample: false, extra_polls: 1, drop_after_polls: None },
                 choices: vec![],
             });
         }
@@ -1041,7 +1098,7 @@ pub fn run_for_c12(cx: &Cx) -> Acc {
                 gzip: None,
                 chunk: 2,
                 program: program.clone(),
-                cfg: CCfg { fresh_waker, spurious: 1, sample: true, extra_polls: 1 },
+                cfg: CCfg { fresh_waker, spurious: 1, sample: true, extra_polls: 1, drop_after_polls: None },
                 choices: vec![],
             });
         }
@@ -1094,7 +1151,7 @@ pub fn run_for_c20(cx: &Cx) -> Acc {
                 gzip,
                 chunk,
                 program: program.clone(),
-                cfg: CCfg { fresh_waker: false, spurious: 0, sample: false, extra_polls: 3 },
+                cfg: CCfg { fresh_waker: false, spurious: 0, sample: false, extra_polls: 3, drop_after_polls: None },
                 choices: vec![],
             });
         }
